@@ -267,6 +267,15 @@ def parse(repo):
     ks = function_body(src, r"double\s+KSprob\s*\([^)]*\)\s*\{")
     out = {}
 
+    # --- Normal: which tail of the start value is taken (round 9; notes/proposed/C17-normal-upper-tail.diff)
+    #     original:  NormalDistribution(z, f, g);  f = 1 - f;        repaired:  NormalDistribution(-z, f, g);
+    nrm = re.sub(r"\s+", "", function_body(src, r"double\s+Normal\s*\([^)]*\)\s*\{"))
+    direct = "NormalDistribution(-z,f,g);f=(f-a)/g;" in nrm
+    compl = "NormalDistribution(z,f,g);f=1-f;f=(f-a)/g;" in nrm
+    if direct == compl:
+        raise Unreadable("Normal: neither `NormalDistribution(z, f, g); f = 1 - f;` nor `NormalDistribution(-z, f, g);` in front of `f = (f-a)/g;`")
+    out["normalUpperDirect"] = direct
+
     # --- series loop: for (;;) { ... if (COND) break; ... }
     m = re.search(r"for\s*\(\s*;\s*;\s*\)\s*\{", nd)
     if not m:
@@ -409,6 +418,10 @@ def render(o):
     A("/-- Chi_square: the polynomial of the `else` branch -/")
     A("def chiPolyB (f1 f2 : K) : K :=")
     A(wrap(o["chiPolyB"]))
+    A("")
+    A("/-- Normal: `true` = the repaired code `NormalDistribution(-z, f, g);` (upper tail of the start value computed directly), "
+      "`false` = the original `NormalDistribution(z, f, g); f = 1 - f;` -/")
+    A(f"def normalUpperDirect : Bool := {'true' if o['normalUpperDirect'] else 'false'}")
     A("")
     A(f"/-- KSprob, first loop: `if ({o['ksStop1'][0]}) break;` -/")
     A(f"def ksStop1 (eps term : K) : Bool := decide ({o['ksStop1'][1]})")
